@@ -360,6 +360,15 @@ func c07Child(a *ChildArgs) {
 			}
 			c07Batch(a, list)
 		}
+		// both kinds of bad member in one list, in either order
+		for _, list := range [][]string{
+			{"SELECT 1", "SELECT a FROM", "SELECT 2", "SELECT 'unterminated"},
+			{"SELECT 1", "SELECT 'unterminated", "SELECT 2", "SELECT a FROM"},
+			{"SELECT a FROM t WHERE", "SELECT \"open", "SELECT 3"},
+			{"SELECT /* never closed", "SELECT FROM", "SELECT 3"},
+		} {
+			c07Batch(a, list)
+		}
 		for i := 0; i < a.N; i++ {
 			seed := base + int64(i)*15485863 + 99
 			r := rand.New(rand.NewSource(seed))
@@ -371,6 +380,9 @@ func c07Child(a *ChildArgs) {
 				if r.Intn(5) == 0 {
 					m, _, _ := gen.MutateToks(r, x.Toks)
 					list = append(list, gen.Plain(m))
+				} else if r.Intn(8) == 0 {
+					// a member the tokenizer rejects (the batch must still stop at the first bad member, whatever kind it is)
+					list = append(list, gen.Plain(x.Toks)+[]string{" 'unterminated", " \"open", " /* never closed", " 'bad \\q escape'"}[r.Intn(4)])
 				} else {
 					list = append(list, gen.Plain(x.Toks))
 				}
